@@ -13,6 +13,8 @@ type Script struct {
 	declared map[string]bool
 	n        int
 	prelude  []string // spec functions, uninterpreted functions (emitted first)
+	defIndex map[string]int
+	defTerm  map[string]string
 }
 
 type scriptLine struct {
@@ -23,7 +25,7 @@ type scriptLine struct {
 }
 
 func NewScript() *Script {
-	return &Script{declared: map[string]bool{}}
+	return &Script{declared: map[string]bool{}, defIndex: map[string]int{}, defTerm: map[string]string{}}
 }
 
 // sym quotes a symbol if it is not a simple SMT-LIB symbol.
@@ -50,6 +52,7 @@ func (sc *Script) Declare(name, sort string) string {
 		return q
 	}
 	sc.declared[q] = true
+	sc.defIndex[q] = len(sc.lines)
 	sc.lines = append(sc.lines, scriptLine{kind: "decl", name: q, text: fmt.Sprintf("(declare-const %s %s)", q, sort)})
 	return q
 }
@@ -79,6 +82,8 @@ func (sc *Script) Define(prefix, sort, term string) string {
 	sc.n++
 	q := sym(fmt.Sprintf("%s!%d", prefix, sc.n))
 	sc.declared[q] = true
+	sc.defIndex[q] = len(sc.lines)
+	sc.defTerm[q] = term
 	sc.lines = append(sc.lines, scriptLine{kind: "def", name: q, text: fmt.Sprintf("(define-fun %s () %s %s)", q, sort, term)})
 	return q
 }
@@ -282,4 +287,49 @@ func sortedKeys[V any](m map[string]V) []string {
 	}
 	sort.Strings(ks)
 	return ks
+}
+
+// termSymbols lists the symbols (not literals, not operators in head position of known
+// theory functions) occurring in an SMT term.
+func termSymbols(t string) []string {
+	var out []string
+	i := 0
+	for i < len(t) {
+		c := t[i]
+		switch {
+		case c == '(' || c == ')' || c == ' ' || c == '\n' || c == '\t':
+			i++
+		case c == '"':
+			j := i + 1
+			for j < len(t) {
+				if t[j] == '"' {
+					if j+1 < len(t) && t[j+1] == '"' {
+						j += 2
+						continue
+					}
+					break
+				}
+				j++
+			}
+			i = j + 1
+		case c == '|':
+			j := strings.IndexByte(t[i+1:], '|')
+			if j < 0 {
+				return out
+			}
+			out = append(out, t[i:i+j+2])
+			i = i + j + 2
+		default:
+			j := i
+			for j < len(t) && t[j] != '(' && t[j] != ')' && t[j] != ' ' && t[j] != '\n' && t[j] != '\t' {
+				j++
+			}
+			tok := t[i:j]
+			if !(tok[0] >= '0' && tok[0] <= '9') {
+				out = append(out, tok)
+			}
+			i = j
+		}
+	}
+	return out
 }
